@@ -84,6 +84,10 @@ FIXES = {  # subject prefix -> properties whose check must fire when the fix is 
 # fixes whose lines were changed again by a later fix: (file, text now, text before that fix)
 MANUAL_REVERT = {
     "fix: read_text without": ("dask/bag/text.py", "                + (parts[-1:] if parts[-1] else [])\n", "                + parts[-1:]\n"),
+    "fix: shuffle index dtype": ("dask/array/_shuffle.py", "    dtype = np.min_scalar_type(\n        max(*chunks[axis], chunk_size_limit, *map(len, new_chunks))\n    )\n", "    dtype = np.min_scalar_type(max(*chunks[axis], chunk_size_limit))\n"),
+    "fix: structured and sub-array dtypes": ("dask/tokenize.py", '        if dtype.kind == "V":\n', '        if False:\n'),
+    "fix: a broadcast join no longer claims": ("dask/dataframe/dask_expr/_merge.py", '            "broadcast" in self._parameters\n            and self.is_broadcast_join\n', '            False\n            and self.is_broadcast_join\n'),
+    "fix: array tokens hash values in logical order": ("dask/tokenize.py", '                data = hash_buffer_hex(x.ravel(order="C").view("i1"))', '                data = hash_buffer_hex(x.ravel(order="K").view("i1"))'),
 }
 
 
